@@ -1,5 +1,6 @@
 """C08 — key generation aborts and names the sender on any malformed peer contribution."""
 from ..common import *
+from .. import refhash
 
 ID = "C08"
 LEVEL = "proof"
@@ -38,6 +39,19 @@ def inject(sess, suite, n, t, kind):
                 faults.append(("pok.R", {ell: mk_r1(f["comm"], fo["R"], f["z"])}, "InvalidProofOfKnowledge", [ell], False))
                 faults.append(("pok-of-other-commitment", {ell: mk_r1([fo["comm"][0]] + f["comm"][1:], f["R"], f["z"])}, "InvalidProofOfKnowledge", [ell], False))
                 faults.append(("whole-package-of-other", {ell: d.pkg1[other[0]]}, "InvalidProofOfKnowledge", [ell], False))
+            neg = sess.call("msm %s scalars=%s elems=%s" % (suite, fld.enc(-1), f["R"]), EXACT, "negate-R")
+            if neg.ok and neg["v"] != "id":
+                faults.append(("pok.R-negated", {ell: mk_r1(f["comm"], neg["v"], f["z"])}, "InvalidProofOfKnowledge", [ell], False))
+            # a proof crafted to be valid "up to the sign of R": R' = -(kG), mu = k + a0*HDKG(id, phi0, R')
+            gk = sess.call("split %s key=%s n=2 t=2 ids=default tape=%s" % (suite, fld.enc(1), sess.tape(256)), NONE, "generator")
+            if gk.ok:
+                G = pkp_fields(gk["pkp"])["vk"]
+                k = fld.rand(rng)
+                rb = sess.call("msm %s scalars=%s elems=%s" % (suite, fld.enc(-k), G), EXACT, "crafted-R")
+                if rb.ok and rb["v"] != "id":
+                    a0 = fld.dec(d.sp1[ell].split(":")[1].split(",")[0])
+                    cc = refhash.hash_to_scalar(suite, "dkg", bytes.fromhex(ell) + bytes.fromhex(f["comm"][0]) + bytes.fromhex(rb["v"]))
+                    faults.append(("pok-valid-for-negated-R", {ell: mk_r1(f["comm"], rb["v"], fld.enc(k + a0 * cc))}, "InvalidProofOfKnowledge", [ell], True))
             faults.append(("comm-truncated", {ell: mk_r1(f["comm"][:-1], f["R"], f["z"])}, "IncorrectNumberOfCommitments", [], True))
             faults.append(("comm-extended", {ell: mk_r1(f["comm"] + [f["comm"][-1]], f["R"], f["z"])}, "IncorrectNumberOfCommitments", [], True))
             for field, pkgs, want, culp, exact in faults:
@@ -116,6 +130,10 @@ def inject(sess, suite, n, t, kind):
             r = sess.call(req, EXACT, "dkg3-missing")
             sess.oracle(r.err == "IncorrectNumberOfPackages", "missing round-two contribution: %s" % r.raw, [req])
             sess.case("r2missing|" + req)
+            req = "dkg3 %s sp2=%s r1=%s r2=%s" % (suite, d.sp2[me], r1_str(d.pkg1, me), ";".join("%s:%s" % (j, v) for j, v in lst + [(outsider, lst[0][1])]))
+            r = sess.call(req, EXACT, "dkg3-surplus")
+            sess.oracle(r.err == "IncorrectNumberOfPackages", "surplus round-two contribution (no round-one package for it): %s" % r.raw[:80], [req])
+            sess.case("r2surplus|" + req)
             req = "dkg3 %s sp2=%s r1=%s r2=%s" % (suite, d.sp2[me], r1_str(d.pkg1, me), ";".join("%s:%s" % ((outsider if j == ell else j), v) for j, v in lst))
             r = sess.call(req, EXACT, "dkg3-unknownsender")
             sess.oracle(r.err == "IncorrectPackage", "round-two contribution from an unknown sender: %s" % r.raw, [req])
